@@ -513,9 +513,19 @@ def rule_c(ctx, rid, body_filter):
                         ctx.ok(rid, key + ":" + rng[-50:], lp.span, b.id, "finite range with a memory-bounded end (%s)" % show(c))
                     else:
                         rows = table.get("%s:range" % fn_key(b))
+                        # a counted loop that does per iteration what a reviewed manual loop of this function does
+                        # (e.g. pushes one element): same progress argument, same row
+                        anch = None
+                        for anchors, reason in (table.get(fn_key(b)) or ()):
+                            ab = anchor_blocks(b, lp, anchors)
+                            if ab and not _reaches_self(b, lp.header, lp.blocks - ab):
+                                anch = reason
                         if rows:
                             nman += 1
                             ctx.ok(rid, key + ":" + rng[-50:], lp.span, b.id, rows[0][1], how="table")
+                        elif anch:
+                            nman += 1
+                            ctx.ok(rid, key + ":" + rng[-50:], lp.span, b.id, anch, how="table")
                         else:
                             ctx.violation(rid, key + ":" + rng[-50:], lp.span, b.id,
                                           "range loop whose bound is of class %s: the iteration count is not memory-bounded" % show(c))
